@@ -597,6 +597,23 @@ def as_seq(ex, st, v, node):
         if m.keys is None:
             m = ty.MapV(m.key, m.val, m.dom, m.arrs, pdlib.enumerate_domain(ex, st, m.dom))
         return maplib.values_seq(m)
+    if isinstance(v, SymSet):
+        # iterating a set (also list(set(...))): SOME enumeration of its members - each member exactly once, in an order the language leaves unspecified
+        # (for strings it changes with the interpreter's hash seed).  One enumeration per set value and state.
+        cache = st.ghost.setdefault("__setenum__", {})
+        key = v.mem.get_id()
+        if key not in cache:
+            esort = v.mem.sort().domain()
+            arr = z3.Const(ty.fresh_name("setenum"), z3.ArraySort(z3.IntSort(), esort))
+            n = z3.Int(ty.fresh_name("setenum_n"))
+            pos = z3.Function(ty.fresh_name("setenum_pos"), esort, z3.IntSort())
+            i, j = z3.Int(ty.fresh_name("ei")), z3.Int(ty.fresh_name("ej"))
+            x = z3.Const(ty.fresh_name("ex"), esort)
+            st.assume(n >= 0)
+            st.assume(ty.FA([i], z3.Implies(z3.And(i >= 0, i < n), z3.And(z3.Select(v.mem, z3.Select(arr, i)), pos(z3.Select(arr, i)) == i)), patterns=[z3.Select(arr, i)]))
+            st.assume(ty.FA([x], z3.Implies(z3.Select(v.mem, x), z3.And(pos(x) >= 0, pos(x) < n, z3.Select(arr, pos(x)) == x)), patterns=[z3.Select(v.mem, x)]))
+            cache[key] = ty.SeqV(v.elem, [arr], n)
+        return cache[key]
     raise _U(f"iteration over {v!r}", node)
 
 
@@ -1660,6 +1677,14 @@ def m_np_arange(ex, st, args, kwargs, node):
     return _out(ty.SeqV(ty.Real, [z3.Lambda([k], at(k))], n), st)
 
 
+def m_ordered_dict(ex, st, args, kwargs, node):
+    """collections.OrderedDict() without arguments: an empty (insertion-ordered) dictionary"""
+    if args or kwargs:
+        raise _U("OrderedDict with initial items", node)
+    return _out(PyDict({}), st)
+
+
+MODULE_FUNCS["collections.OrderedDict"] = m_ordered_dict
 MODULE_FUNCS["collections.deque"] = m_deque
 MODULE_FUNCS["numpy.arange"] = m_np_arange
 MODULE_CONSTS = {}
